@@ -136,24 +136,28 @@ Spec == Init /\ [][Next]_vars
 ASSUME TLCSet(1, {})
 Once(class, rec) == IF class \in TLCGet(1) THEN TRUE
                     ELSE TLCSet(1, TLCGet(1) \cup {class}) /\ PrintT(<<"CEX", ToJson(rec)>>)
-\* the encoding layer a slate difference is attributed to: the slatepack layers carry the binary slate
-Blame(enc, s, env, diff) ==
-  IF UsesBin(enc) /\ enc # "bin" /\ DiffSet(s, DecEnc("bin", s, env).slate) = diff THEN "bin" ELSE enc
+\* the differences a slatepack encoding inherits from the binary slate it carries (attributed to "bin")
+Inherited(enc, s, env, diff) ==
+  IF UsesBin(enc) /\ enc # "bin" THEN diff \cap DiffSet(s, DecEnc("bin", s, env).slate) ELSE {}
 
 CheckRoundTrip(x, enc, r) ==
   LET s == SlateOfCase(x.a)  env == EnvOf(x.a) IN
   IF RoundTripRes(r, s, env, enc) THEN TRUE
-  ELSE LET diff == DiffSet(s, r.slate) IN
-       Once(<<"RoundTrip", Blame(enc, s, env, diff), diff, r.res>>,
-            [p |-> "RoundTrip", e |-> enc, blame |-> Blame(enc, s, env, diff), diff |-> diff, res |-> r.res, case |-> x])
+  ELSE LET diff == IF r.res = "ok" THEN DiffSet(s, r.slate) \cup (IF IsPack(enc) /\ r.sender # env.snd THEN {"sender"} ELSE {})
+                   ELSE {"res:" \o r.res}
+           inh  == Inherited(enc, s, env, diff) IN
+       Once(<<"RoundTrip", IF diff = inh THEN "bin" ELSE enc, diff>>,
+            [p |-> "RoundTrip", e |-> enc, inh |-> inh, diff |-> diff, case |-> x])
+
 \* CrossEqual: every decoding equals the decoding of the V4 JSON form (equality is transitive, so this is
 \* the pairwise statement of CodecRoundTrip!CrossEqual); evaluated on the decoded state of each other encoding
 CheckCross(x, enc, r) ==
   LET s == SlateOfCase(x.a)  env == EnvOf(x.a)  j == DecEnc("json", s, env) IN
   IF (r.res = "ok" /\ j.res = "ok") => SlateEq(r.slate, j.slate) THEN TRUE
-  ELSE LET diff == DiffSet(j.slate, r.slate) IN
-       Once(<<"CrossEqual", Blame(enc, s, env, DiffSet(s, r.slate)), diff>>,
-            [p |-> "CrossEqual", e |-> "json~" \o enc, blame |-> Blame(enc, s, env, DiffSet(s, r.slate)), diff |-> diff, res |-> "ok", case |-> x])
+  ELSE LET diff == DiffSet(j.slate, r.slate)
+           inh  == IF enc = "bin" THEN {} ELSE diff \cap DiffSet(j.slate, DecEnc("bin", s, env).slate) IN
+       Once(<<"CrossEqual", IF diff = inh THEN "bin" ELSE enc, diff>>,
+            [p |-> "CrossEqual", e |-> "json~" \o enc, inh |-> inh, diff |-> diff, case |-> x])
 
 \* --------------------------------------------------------- invariants ----
 InvRoundTrip ==
